@@ -1,5 +1,4 @@
-import PyPhysim.Proofs.C20GmdInvAlg
-import PyPhysim.Proofs.C20GmdInvPerm
+import PyPhysim.Proofs.C20GmdKPerm
 
 /-!
 # `gmd` — the loop invariant on the abstract state and its preservation by `stepA`
@@ -11,7 +10,7 @@ import PyPhysim.Proofs.C20GmdInvPerm
 set_option linter.unusedSectionVars false
 set_option linter.unusedVariables false
 set_option linter.unusedSimpArgs false
-namespace PyPhysim.LinAlg.GmdInv
+namespace PyPhysim.LinAlg.GmdK
 open PyPhysim.Proto PyPhysim.LinAlg Matrix
 
 /-- the loop invariant of the sweep after `k` iterations, on the abstract state -/
@@ -141,4 +140,4 @@ theorem Inv.step {m n p : Nat} {A : Matrix (Fin m) (Fin n) ℝ} {S : Nat → ℝ
       show (stepA sb k g).invperm q = _
       simp only [stepA, ← hi]
 
-end PyPhysim.LinAlg.GmdInv
+end PyPhysim.LinAlg.GmdK
